@@ -150,6 +150,18 @@ pub struct Sub2<M, F, E> {
     pub _f: std::marker::PhantomData<F>,
 }
 
+/// a dataset around `a` with three named target columns, sample weights and feature names
+fn decorated<F: linfa::Float>(a: Array2<F>) -> DatasetBase<Array2<F>, Array2<u8>> {
+    let (n, p) = a.dim();
+    DatasetBase::new(a, Array2::<u8>::from_shape_fn((n, 3), |(i, j)| ((i + j) % 3) as u8))
+        .with_weights(Array1::from_shape_fn(n, |i| 0.5 + (i % 4) as f32))
+        .with_feature_names((0..p).map(|j| format!("feature-{j}")).collect::<Vec<_>>())
+        .with_target_names(vec!["first", "second", "third"])
+}
+fn same_rows(a: &[Vec<f64>], b: &[Vec<f64>]) -> bool {
+    a.len() == b.len() && a.iter().zip(b.iter()).all(|(r, q)| r.len() == q.len() && r.iter().zip(q.iter()).all(|(u, v)| u.to_bits() == v.to_bits()))
+}
+
 fn rows1<E>(a: &Array1<E>, conv: &Conv<E>) -> Vec<Vec<f64>> {
     a.iter().map(|e| vec![conv(e)]).collect()
 }
@@ -225,18 +237,28 @@ macro_rules! impl_subject {
                     }),
                     Form::RefDataset => {
                         let a: Array2<F> = owned_layout(x, layout);
-                        let ds = DatasetBase::new(a, Array1::<u8>::zeros(x.nrows()));
+                        let ds = DatasetBase::new(a.clone(), Array1::<u8>::zeros(x.nrows()));
                         let y: $out<E> = m.predict(&ds);
-                        Pred { rows: $rows(&y, conv), records_ok: true }
+                        let first = $rows(&y, conv);
+                        // the same records inside a dataset that carries everything a dataset can
+                        // carry (three named target columns, weights, feature names)
+                        let y: $out<E> = m.predict(&decorated(a));
+                        let second = $rows(&y, conv);
+                        Pred { rows: if same_rows(&first, &second) { first } else { second }, records_ok: true }
                     }
                     Form::OwnedDataset => {
                         let a: Array2<F> = owned_layout(x, layout);
                         let keep = a.clone();
-                        let ds = DatasetBase::new(a, Array1::<u8>::zeros(x.nrows()));
+                        let ds = DatasetBase::new(a.clone(), Array1::<u8>::zeros(x.nrows()));
                         let out: DatasetBase<Array2<F>, $out<E>> = m.predict(ds);
+                        let first = $rows(out.targets(), conv);
+                        let ok1 = same_bits(&out.records().view(), &keep.view());
+                        let out: DatasetBase<Array2<F>, $out<E>> = m.predict(decorated(a));
+                        let second = $rows(out.targets(), conv);
+                        let ok2 = same_bits(&out.records().view(), &keep.view());
                         Pred {
-                            rows: $rows(out.targets(), conv),
-                            records_ok: same_bits(&out.records().view(), &keep.view()),
+                            rows: if same_rows(&first, &second) { first } else { second },
+                            records_ok: ok1 && ok2,
                         }
                     }
                     Form::Inplace => {
@@ -505,8 +527,12 @@ pub fn predictor_builders() -> Vec<(&'static str, Builder)> {
         Ok(sub1!("ols-f32-nointercept", m, 3, false, f32c(), f32))
     }));
     v.push(("isotonic-f64", |seed| {
-        let d = make_data(seed, 70, 1, false);
-        let ds = Dataset::new(d.x.clone(), d.yreg.clone());
+        // records drawn like the probe rows (most queries fall between two knots), response
+        // increasing up to noise (many knots)
+        let x = probe(seed ^ 0x150, 70, 1, false);
+        let mut rng = Rng::seed_from_u64(seed ^ 0x150_70);
+        let y = Array1::from_shape_fn(70, |i| 0.8 * x[[i, 0]] + 0.5 * gen::normal(&mut rng) + 1.5);
+        let ds = Dataset::new(x, y);
         let m = linfa_linear::IsotonicRegression::new().fit(&ds).map_err(es)?;
         Ok(sub1!("isotonic-f64", m, 1, false, f64c(), f64))
     }));
